@@ -14,7 +14,7 @@ import (
 
 // API variants of the one observation "does input idx verify": every way a caller can drive the exported
 // Engine must give the verdict of NewEngine(...).Execute() with fresh arguments.
-const nVariants = 10
+const nVariants = 12
 
 func verdict(err error) string {
 	if err != nil {
@@ -140,19 +140,59 @@ func (s *spend) runVariant(v int) string {
 	case 9: // a signature cached for this transaction must not validate a different transaction
 		sc := txscript.NewSigCache(50)
 		r := exec(mk(sc, txscript.NewTxSigHashes(s.tx, f), f))
-		t2 := s.tx.Copy()
-		t2.LockTime ^= 1
-		if len(t2.TxOut) > 0 {
-			t2.TxOut[0].Value ^= 1
-		}
-		s2 := &spend{flags: s.flags, tx: t2, idx: s.idx, spent: s.spent}
-		f2 := s2.fetcher()
-		fresh := s2.runBtcd()
-		vm, err := txscript.NewEngine(prev.PkScript, t2, s.idx, s.flags, sc, txscript.NewTxSigHashes(t2, f2), prev.Value, f2)
-		if got := exec(vm, err); got != fresh {
-			return "incons:cache-poison:" + got + "/" + fresh
+		// many other transactions carrying the same scripts: none may be answered from the cache
+		for k := 1; k <= 48; k++ {
+			t2 := s.tx.Copy()
+			t2.LockTime ^= uint32(k)
+			if len(t2.TxOut) > 0 {
+				t2.TxOut[0].Value ^= int64(k) << 3
+			}
+			s2 := &spend{flags: s.flags, tx: t2, idx: s.idx, spent: s.spent}
+			f2 := s2.fetcher()
+			fresh := s2.runBtcd()
+			vm, err := txscript.NewEngine(prev.PkScript, t2, s.idx, s.flags, sc, txscript.NewTxSigHashes(t2, f2), prev.Value, f2)
+			if got := exec(vm, err); got != fresh {
+				return "incons:cache-poison:" + got + "/" + fresh
+			}
+			if fresh == "ok" && r == "ok" && k > 4 {
+				break // the verdict does not depend on the transaction: nothing to learn from more copies
+			}
 		}
 		return check("cache-other-tx", r)
+	case 10, 11: // the exported taproot helpers agree with the engine on native P2TR spends
+		in := s.tx.TxIn[s.idx]
+		pk := prev.PkScript
+		need := txscript.ScriptVerifyWitness | txscript.ScriptVerifyTaproot | txscript.ScriptBip16
+		if !(len(pk) == 34 && pk[0] == 0x51 && pk[1] == 0x20) || len(in.SignatureScript) != 0 || s.flags&need != need ||
+			len(in.Witness) == 0 {
+			return base
+		}
+		wit := in.Witness
+		if len(wit) >= 2 && len(wit[len(wit)-1]) > 0 && wit[len(wit)-1][0] == txscript.TaprootAnnexTag {
+			wit = wit[:len(wit)-1]
+		}
+		if len(wit) == 1 {
+			var hc *txscript.TxSigHashes
+			if v == 10 {
+				hc = txscript.NewTxSigHashes(s.tx, f)
+			}
+			err := txscript.VerifyTaprootKeySpend(pk[2:], wit[0], s.tx, s.idx, f, hc, nil)
+			return check("keyspend-helper", verdict(err))
+		}
+		cb, err := txscript.ParseControlBlock(wit[len(wit)-1])
+		if err == nil {
+			err = txscript.VerifyTaprootLeafCommitment(cb, pk[2:], wit[len(wit)-2])
+		}
+		if err != nil && base == "ok" {
+			return "incons:leaf-commitment-helper"
+		}
+		if err == nil {
+			// round trip of the parsed control block
+			if b, e2 := cb.ToBytes(); e2 != nil || !bytes.Equal(b, wit[len(wit)-1]) {
+				return "incons:control-block-roundtrip"
+			}
+		}
+		return base
 	default: // nil hash cache and nil signature cache with the engine executed twice from scratch
 		a := exec(mk(nil, nil, f))
 		b := exec(mk(nil, nil, f))
